@@ -79,10 +79,9 @@ static KEYWORDS: [&str; 48] = [
     "with",
 ];
 fn escape(id: &str, is_method: bool) -> RcDoc<'_> {
-    if KEYWORDS.contains(&id) {
-        str(id).append("_")
-    } else if is_valid_as_id(id) {
-        if id.ends_with('_') {
+    if is_valid_as_id(id) {
+        // `async*` and `await*` are in the keyword table but are not identifiers: they take the hash form
+        if KEYWORDS.contains(&id) || id.ends_with('_') {
             str(id).append("_")
         } else {
             str(id)
